@@ -20,6 +20,7 @@
   Core Lean only (the driver links this natively).
 -/
 import SiaModel.Prim.Blake2b
+import SiaModel.Gen.FactsRhp
 set_option linter.unusedVariables false
 
 namespace Sia.Rhp
@@ -491,10 +492,12 @@ def verifyMultiLoop {H : Type} [HashOps H] (acc : Acc H) (treeHashes : List H) :
     | l :: leafs' => verifyMultiLoop (s.1.insertNode l 0) s.2 es leafs' (e + 1) numLeaves
 
 /-- Does `verifyMulti` also require its accumulator to end with exactly `numLeaves` leaves
-(Go: `&& acc.numLeaves == numLeaves`)? The code at the pinned commit does NOT — that is finding
-C16 "freed-index" (`C16.c16_diff_forged_accepted`). Flip to `true` when rhp/v2/merkle.go is fixed;
-every theorem is stated for an explicit value of this flag, so nothing else changes. -/
-def codeChecksLeafCount : Bool := true
+(Go: `&& acc.numLeaves == numLeaves`)? READ FROM THE CODE: the T-fact generator
+`extract/facts_rhp.go` inspects the `return` of the `verifyMulti` closure on every run. The
+pinned commit lacked the check (finding C16 "freed-index", `C16.c16_diff_forged_accepted`); it was
+added by the fix 9e80790. Every theorem is stated for an explicit value of the flag, and
+`C16.tie_verifyMulti_checks_leaf_count` pins the value the soundness theorems need. -/
+def codeChecksLeafCount : Bool := Gen.FactsRhp.verifyMultiChecksLeafCount
 
 /-- `verifyMulti(proofIndices, treeHashes, leafHashes, numLeaves, root)`; `checkCount` selects the
 variant with the leaf-count check (see `codeChecksLeafCount`) -/
@@ -543,15 +546,38 @@ def modifyLeaves {H : Type} (leafHashes : List H) (actions : List (Action H)) (n
 /-- `VerifyDiffProof(actions, numLeaves, treeHashes, leafHashes, oldRoot, newRoot, appendRoots)` -/
 def verifyDiffProofG {H : Type} [HashOps H] [DecidableEq H] (checkCount : Bool)
     (actions : List (Action H)) (numLeaves : Nat) (treeHashes leafHashes : List H)
-    (oldRoot newRoot : H) : Except String Bool := do
-  let proofIndices ← sectorsChanged actions numLeaves
-  if proofIndices.length ≠ leafHashes.length then return false
-  let ok ← verifyMultiG checkCount proofIndices treeHashes leafHashes numLeaves oldRoot
-  if !ok then return false
-  let newLeafHashes ← modifyLeaves leafHashes actions numLeaves
-  let newProofIndices ← modifyProofRanges proofIndices actions numLeaves
-  let numLeaves' := numLeaves + newLeafHashes.length - leafHashes.length
-  verifyMultiG checkCount newProofIndices treeHashes newLeafHashes numLeaves' newRoot
+    (oldRoot newRoot : H) : Except String Bool :=
+  match sectorsChanged actions numLeaves with
+  | .error e => .error e
+  | .ok proofIndices =>
+    if proofIndices.length ≠ leafHashes.length then .ok false
+    else
+      -- first use the original proof to construct oldRoot
+      match verifyMultiG checkCount proofIndices treeHashes leafHashes numLeaves oldRoot with
+      | .error e => .error e
+      | .ok false => .ok false
+      | .ok true =>
+        -- then modify the proof according to actions and construct the newRoot
+        match modifyLeaves leafHashes actions numLeaves with
+        | .error e => .error e
+        | .ok newLeafHashes =>
+          match modifyProofRanges proofIndices actions numLeaves with
+          | .error e => .error e
+          | .ok newProofIndices =>
+            verifyMultiG checkCount newProofIndices treeHashes newLeafHashes
+              (numLeaves + newLeafHashes.length - leafHashes.length) newRoot
+
+/-- SPECIFICATION: the list of sector roots after performing the actions one after the other
+(`Append` adds the root at the end, `Trim k` drops the last `k`, `Swap a b` exchanges two entries) -/
+def applyActions {H : Type} : List H → List (Action H) → Except String (List H)
+  | l, [] => .ok l
+  | l, .append r :: as => applyActions (l ++ [r]) as
+  | l, .trim k :: as =>
+      if k > l.length then .error "slice bounds out of range" else applyActions (l.take (l.length - k)) as
+  | l, .swap a b :: as => do
+      let l' ← swapList l a b
+      applyActions l' as
+  | _, .other :: _ => .error "unknown or unsupported action type"
 
 /-- rhp/v4 `convertFreeActions(freed, numSectors)` -/
 def convertFreeActions {H : Type} (freed : List Nat) (numSectors : Nat) : List (Action H) :=
